@@ -82,7 +82,7 @@ func (reg TXTErrorCode) Fields() []Field {
 }
 
 func (reg TXTErrorCode) ModuleType() uint8 {
-	return uint8((reg >> 0) & 0x7) // 3:0
+	return uint8((reg >> 0) & 0xf) // 3:0
 }
 
 func (reg TXTErrorCode) ClassCode() uint8 {
@@ -98,7 +98,7 @@ func (reg TXTErrorCode) SoftwareSource() bool {
 }
 
 func (reg TXTErrorCode) MinorErrorCode() uint16 {
-	return uint16((reg >> 16) & 0x3ffff) // 27:16
+	return uint16((reg >> 16) & 0xfff) // 27:16
 }
 
 func (reg TXTErrorCode) Type1Reserved() uint8 {
